@@ -31,6 +31,7 @@ type plBlock struct {
 	results    int
 	valFail    bool // the epoch-nonce provider fails for this block: it does not validate
 	resValid   bool // the item on Results() said it had validated
+	retried    bool // a first Submit failed; the same call was made again later
 }
 
 func pipelineSetup(s *rt.Sim, tier string) func() {
@@ -80,6 +81,10 @@ func pipelineSetup(s *rt.Sim, tier string) func() {
 				}
 			}
 		}
+		// knobs (own streams): the nonce provider's failure wraps a context error of its own;
+		// a submitter repeats a failed Submit (same arguments) after its next submission
+		ctxFlavoured := rt.Choose("cfg.r", 2) == 1
+		retryFailed := rt.Choose("cfg.r", 2) == 1
 		type valCall struct{ start, end uint64 }
 		var valCalls []*valCall
 		eta0Provider := func(slot uint64) (string, error) {
@@ -91,6 +96,10 @@ func pipelineSetup(s *rt.Sim, tier string) func() {
 				sleep(oneOf("op", time.Millisecond, 40*time.Millisecond, 700*time.Millisecond))
 			}
 			if failSlot[slot] {
+				if ctxFlavoured {
+					// the application's own lookup timed out: an ordinary failure of this block
+					return "", fmt.Errorf("harness: epoch nonce lookup for slot %d: %w", slot, context.DeadlineExceeded)
+				}
 				return "", fmt.Errorf("harness: no epoch nonce for slot %d", slot)
 			}
 			return validConwayEta0, nil
@@ -175,6 +184,9 @@ func pipelineSetup(s *rt.Sim, tier string) func() {
 			task := task
 			go func() {
 				defer func() { fin <- struct{}{} }()
+				var retryB *plBlock
+				var retryType uint
+				var retryData []byte
 				for i := 0; i < perSub; i++ {
 					fb := blocks[pick("op", len(blocks))]
 					if valWorkers > 0 && chance("op", 1, 2) {
@@ -202,6 +214,19 @@ func pipelineSetup(s *rt.Sim, tier string) func() {
 					if b.err != nil && !stopping {
 						rt.Hit("pl.submit-failed")
 						rt.Fault("F14.context-expired")
+					}
+					if retryB != nil {
+						// the caller whose earlier Submit timed out tries that block again, with the
+						// same arguments and no deadline: from here on it is a later submission
+						r := retryB
+						retryB = nil
+						r.retried = true
+						r.inv = rt.Stamp()
+						r.err = p.Submit(context.Background(), retryType, retryData, pcommon.Tip{BlockNumber: uint64(r.idx)})
+						r.ret = rt.Stamp()
+						rt.Hit("pl.retried-failed-submission")
+					} else if retryFailed && b.err != nil && !stopping {
+						retryB, retryType, retryData = b, fb.Type, data
 					}
 					if chance("op", 1, 4) {
 						sleep(oneOf("op", time.Millisecond, 30*time.Millisecond, 500*time.Millisecond))
@@ -346,6 +371,9 @@ func pipelineSetup(s *rt.Sim, tier string) func() {
 				if b.err != nil {
 					failedSeen = true
 					continue
+				}
+				if b.retried {
+					failedSeen = true // its first Submit failed; the repeated one is a later submission
 				}
 				if failedSeen && b.good && len(b.applyStart) == 0 && (valWorkers == 0 || b.resValid) {
 					rt.Violate("C44/later-block-never-applied", "%s: block %d was submitted successfully after a failed submission and was not applied within 2 simulated minutes", desc, b.idx)
